@@ -143,6 +143,15 @@ var actionDirectives = [][]string{
 	{"reject", "451", "4.7.1", "Come back later"},
 	{"reject", "450", "4.7.0", "Policy check failed for now"},
 	{"reject", "552", "5.3.4", "Too much"},
+	// one- and two-argument forms: the enhanced code (its class) and the text are
+	// derived by ParseRejectDirective (seeded C16-w6-1: `reject 450` kept 5.7.0)
+	{"reject", "450"},
+	{"reject", "451"},
+	{"reject", "452"},
+	{"reject", "550"},
+	{"reject", "554"},
+	{"reject", "451", "4.3.0"},
+	{"reject", "550", "5.1.1"},
 }
 
 func (w *wireRig) takeAction() *modconfig.FailAction {
